@@ -1,6 +1,583 @@
-//! C04 — not built yet.
-use crate::report::{Ctx, Reporter};
+//! C04 — HTTP/1 connections always progress: no lost wake-ups, all bytes flushed exactly once.
+//!
+//! Liveness restated as bounded progress, judged logically (never by wall clock): the connection
+//! future is polled only when its waker fired; after the adversarial schedule a settling phase
+//! enables everything that is still disabled, one item at a time in a random order; then
+//! * `stall`   — future pending and no wake-up outstanding                              ⇒ violation
+//! * `spin`    — more polls than the bound while nothing observable changes             ⇒ violation
+//! * `output`  — bytes accepted across partial writes differ from the same scenario on an
+//!               always-ready socket (for scenarios whose output is timing independent)  ⇒ violation
+//!               or do not parse / do not carry the bodies the handlers produced         ⇒ violation
 
-pub fn run(_ctx: &Ctx, rep: &mut Reporter) {
-    rep.inconclusive("C04 monitor not built");
+use serde_json::{json, Value};
+
+use super::c03::Req3;
+use crate::{
+    refmodel::h1_resp,
+    report::{guard, panic_site, Ctx, Reporter},
+    util::{esc_short, split_at_cuts, Rng},
+    world::{
+        conn::ConnCfg,
+        run::{acts_from_json, acts_to_json, run_scenario, Act, Outcome, Scenario},
+        svc::{fill_data, BStep, BodyKind, Prog, ReadMode},
+    },
+};
+
+#[derive(Clone, Debug)]
+pub struct Case {
+    pub cfg: ConnCfg,
+    pub reqs: Vec<Req3>,
+    pub progs: Vec<Prog>,
+    pub acts: Vec<Act>,
+    pub settle: Vec<Act>,
+    pub initial_credit: Option<usize>,
+    /// output does not depend on relative timing (every handler reads its whole body before
+    /// answering, nothing is cut, reset or failed)
+    pub deterministic_output: bool,
+    pub fault: &'static str,
+}
+
+impl Case {
+    fn ngates(&self) -> usize {
+        self.reqs.len() * 3
+    }
+    fn scenario(&self) -> Scenario {
+        let mut sc = Scenario::new(self.cfg.clone(), self.progs.clone(), self.ngates());
+        sc.acts = self.acts.clone();
+        sc.settle = self.settle.clone();
+        sc.initial_credit = self.initial_credit;
+        sc.poll_cap = 200_000;
+        sc
+    }
+    /// the same scenario on a socket that is always ready and with every gate open from the start
+    fn reference(&self) -> Scenario {
+        let mut sc = Scenario::new(self.cfg.clone(), self.progs.clone(), self.ngates());
+        for g in 0..self.ngates() {
+            sc.acts.push(Act::Gate(g, 1_000_000));
+        }
+        for a in self.acts.iter().chain(self.settle.iter()) {
+            if matches!(a, Act::Push(_) | Act::Eof | Act::ReleaseHeld) {
+                sc.acts.push(a.clone());
+            }
+        }
+        sc
+    }
+    fn to_json(&self) -> Value {
+        json!({"cfg": self.cfg.to_json(), "reqs": self.reqs.iter().map(|r| r.to_json()).collect::<Vec<_>>(), "progs": self.progs.iter().map(|p| p.to_json()).collect::<Vec<_>>(),
+            "acts": acts_to_json(&self.acts), "settle": acts_to_json(&self.settle), "initial_credit": self.initial_credit, "deterministic_output": self.deterministic_output, "fault": self.fault})
+    }
+    fn from_json(v: &Value) -> Case {
+        Case {
+            cfg: ConnCfg::from_json(&v["cfg"]),
+            reqs: v["reqs"].as_array().map(|a| a.iter().map(Req3::from_json).collect()).unwrap_or_default(),
+            progs: v["progs"].as_array().map(|a| a.iter().map(Prog::from_json).collect()).unwrap_or_default(),
+            acts: acts_from_json(&v["acts"]),
+            settle: acts_from_json(&v["settle"]),
+            initial_credit: v["initial_credit"].as_u64().map(|x| x as usize),
+            deterministic_output: v["deterministic_output"].as_bool().unwrap_or(false),
+            fault: match v["fault"].as_str() {
+                Some("reset") => "reset",
+                Some("fail-writes") => "fail-writes",
+                Some("early-eof") => "early-eof",
+                _ => "none",
+            },
+        }
+    }
+    fn shape(&self) -> String {
+        let mut s = String::new();
+        let mut last = String::new();
+        for a in self.acts.iter().chain(std::iter::once(&Act::Advance(0))).chain(self.settle.iter()) {
+            let t = match a {
+                Act::Advance(0) => "|".to_string(),
+                Act::Gate(g, _) => ["r", "h", "b"][g % 3].to_string(),
+                other => other.tag(),
+            };
+            if t != last || t == "P" {
+                s.push_str(&t);
+            }
+            last = t;
+        }
+        s
+    }
+}
+
+fn strip_dates(out: &[u8]) -> Vec<u8> {
+    let mut v = Vec::with_capacity(out.len());
+    for line in out.split_inclusive(|&b| b == b'\n') {
+        if line.len() >= 5 && line[..5].eq_ignore_ascii_case(b"date:") {
+            continue;
+        }
+        v.extend_from_slice(line);
+    }
+    v
+}
+
+struct Verdict {
+    class: &'static str,
+    sig: String,
+    detail: String,
+}
+
+fn stuck_where(case: &Case, oc: &Outcome) -> String {
+    // abstract description of where the connection is stuck: what was in flight
+    let sent: usize = case.acts.iter().chain(case.settle.iter()).map(|a| if let Act::Push(d) = a { d.len() } else { 0 }).sum();
+    let unread_input = sent as u64 > oc.bytes_read;
+    let last = oc.reqs.last();
+    let in_handler = last.map(|r| r.responded_seq == 0).unwrap_or(false);
+    let body_open = last.map(|r| r.resp_end == crate::world::svc::RespEnd::Open && r.responded_seq != 0).unwrap_or(false);
+    format!(
+        "input-left={} handler-pending={} response-body-open={} read-mode={}",
+        unread_input,
+        in_handler,
+        body_open,
+        last.map(|r| match case.progs.get(r.idx).map(|p| &p.read) {
+            Some(ReadMode::All) => "all",
+            Some(ReadMode::Ignore) => "ignore",
+            Some(ReadMode::Chunks(_)) => "part",
+            Some(ReadMode::Hold) => "hold",
+            Some(ReadMode::AfterRespond) => "after",
+            Some(ReadMode::DropFirst) => "drop",
+            None => "default",
+        })
+        .unwrap_or("none")
+    )
+}
+
+fn judge(case: &Case, oc: &Outcome, reference: Option<&Outcome>) -> Vec<Verdict> {
+    let mut v = vec![];
+    let events = (case.acts.len() + case.settle.len()) as u64;
+    if oc.livelock {
+        v.push(Verdict {
+            class: "self-wake-livelock",
+            sig: stuck_where(case, oc),
+            detail: format!("the connection task kept waking itself for more than {} polls after one environment event without finishing ({} bytes written, {} handlers ran)", 200_000, oc.out.len(), oc.reqs.len()),
+        });
+        return v;
+    }
+    if oc.stalled {
+        v.push(Verdict {
+            class: "stall-no-wakeup",
+            sig: stuck_where(case, oc),
+            detail: format!(
+                "everything is enabled (unlimited write credit, flush/shutdown unblocked, all gates open, all input delivered, peer closed) but the connection task is Pending and no wake-up is outstanding; a forced poll {} | written={} read={} of input, handlers={} polls={} wakes={}",
+                if oc.stall_forced_poll_progress { "makes progress (lost wake-up)" } else { "makes no progress either" },
+                oc.out.len(),
+                oc.bytes_read,
+                oc.reqs.len(),
+                oc.polls,
+                oc.wakes
+            ),
+        });
+        return v;
+    }
+    if !oc.done {
+        v.push(Verdict { class: "not-terminated", sig: stuck_where(case, oc), detail: "connection task neither finished nor stalled nor spinning at the end of the settling phase".into() });
+        return v;
+    }
+    // bounded progress: polls are bounded by the work there was to do.  Every poll needs a wake;
+    // wakes come from environment events, from bytes moved and from self-wakes.  A generous,
+    // load-independent bound: 64 + 8·events + one poll per 512 bytes moved in either direction.
+    let moved = oc.bytes_read + oc.out.len() as u64;
+    let bound = 64 + 8 * events + moved / 256 + 4 * oc.reqs.len() as u64;
+    if oc.polls > bound * 4 {
+        v.push(Verdict { class: "poll-amplification", sig: stuck_where(case, oc), detail: format!("{} polls for {} events and {} bytes moved (bound {})", oc.polls, events, moved, bound * 4) });
+    }
+    // output integrity
+    if case.fault == "none" || case.fault == "early-eof" {
+        let methods: Vec<String> = case.reqs.iter().map(|r| r.method.to_string()).collect();
+        let rp = h1_resp::parse_responses(&oc.out, &|i| methods.get(i).cloned(), true);
+        if let Some((at, why)) = rp.malformed_at {
+            v.push(Verdict {
+                class: "output-malformed",
+                sig: why.to_string(),
+                detail: format!("bytes accepted by the socket do not form a response stream at offset {at} ({why}): …{}", esc_short(&oc.out[at.saturating_sub(50)..(at + 50).min(oc.out.len())], 160)),
+            });
+            return v;
+        }
+        let mut k = 0;
+        for r in rp.resps.iter().filter(|r| !r.is_interim()) {
+            if let (Some(i), Some(rec)) = (r.req_idx_header(), oc.reqs.get(k)) {
+                if i != k {
+                    v.push(Verdict { class: "output-order", sig: "x-req-idx".into(), detail: format!("response at position {k} answers request {i}") });
+                    return v;
+                }
+                let bodiless = case.reqs[i].method == "HEAD" || r.status == 204 || r.status == 304;
+                if !bodiless {
+                    let mut want = rec.resp_yielded.clone();
+                    if let Some(p) = case.progs.get(i) {
+                        if let BodyKind::SizedStream(n) | BodyKind::CustomSized(n) = p.kind {
+                            want.truncate(n as usize);
+                        }
+                    }
+                    let ok = if r.complete { r.body == want } else { want.starts_with(&r.body) || r.framing == h1_resp::RespFraming::Chunked };
+                    if !ok {
+                        let at = r.body.iter().zip(&want).position(|(a, b)| a != b).unwrap_or(r.body.len().min(want.len()));
+                        v.push(Verdict {
+                            class: "output-bytes-differ",
+                            sig: format!("complete={}", r.complete),
+                            detail: format!("response #{i}: body on the wire ({} bytes) differs from what the handler's body produced ({} bytes) at {at} — bytes lost, duplicated or reordered across partial writes", r.body.len(), want.len()),
+                        });
+                        return v;
+                    }
+                }
+            }
+            k += 1;
+        }
+        if case.fault == "none" && k < oc.reqs.len() && !rp.incomplete_tail {
+            // a handler answered but its response never reached the socket, although the peer
+            // read everything and nothing failed — unless the connection was closed before
+            // (close semantics are C03's business: only flagged when no response closed)
+            let any_close = rp.resps.iter().any(|r| r.has_close() || (r.version == 10 && !r.has_keep_alive()));
+            let answered = oc.reqs.iter().filter(|r| r.responded_seq != 0).count();
+            if !any_close && k < answered {
+                v.push(Verdict { class: "response-never-written", sig: "no-fault".into(), detail: format!("{answered} handlers answered but only {k} responses reached the socket") });
+            }
+        }
+    }
+    if let (true, Some(rf)) = (case.deterministic_output && case.fault == "none", reference) {
+        let (a, b) = (strip_dates(&oc.out), strip_dates(&rf.out));
+        if a != b {
+            let at = a.iter().zip(&b).position(|(x, y)| x != y).unwrap_or(a.len().min(b.len()));
+            v.push(Verdict {
+                class: "output-differs-from-ready-socket-run",
+                sig: "deterministic-scenario".into(),
+                detail: format!(
+                    "bytes accepted under the fault schedule ({}) differ from the always-ready run ({}) at offset {at}: …{}… vs …{}…",
+                    a.len(),
+                    b.len(),
+                    esc_short(&a[at.saturating_sub(30)..(at + 40).min(a.len())], 120),
+                    esc_short(&b[at.saturating_sub(30)..(at + 40).min(b.len())], 120)
+                ),
+            });
+        }
+    }
+    v
+}
+
+fn eval_case(case: &Case, rep: &mut Reporter) {
+    rep.eval();
+    let sc = case.scenario();
+    let oc = match guard(|| run_scenario(&sc)) {
+        Ok(o) => o,
+        Err(p) => {
+            rep.violation("panic", &panic_site(&p), &format!("panic: {p}"), case.to_json());
+            return;
+        }
+    };
+    if std::env::var("AVMON_DEBUG").is_ok() {
+        crate::world::run::debug_dump(&sc, &oc);
+    }
+    let reference = if case.deterministic_output && case.fault == "none" {
+        rep.count("reference_runs", 1);
+        guard(|| run_scenario(&case.reference())).ok()
+    } else {
+        None
+    };
+    rep.count("polls", oc.polls);
+    rep.count("wakes_delivered_to_connection", oc.wakes);
+    rep.count("read_pendings", oc.read_pendings);
+    rep.count("write_pendings", oc.write_pendings);
+    rep.count("partial_writes", oc.partial_writes);
+    rep.count("flush_pendings", oc.flush_pendings);
+    rep.count("handler_invocations", oc.reqs.len() as u64);
+    rep.count(&format!("fault:{}", case.fault), 1);
+    rep.count(if oc.done { "terminated" } else { "not_terminated" }, 1);
+    match &oc.result {
+        Some(Ok(())) => rep.count("result:ok", 1),
+        Some(Err(_)) => rep.count("result:err", 1),
+        None => {}
+    }
+    rep.max("polls_in_one_case", oc.polls);
+    if oc.bytes_read > 131_072 {
+        rep.count("cases_reading_beyond_read_buffer_limit", 1);
+    }
+    for vd in judge(case, &oc, reference.as_ref()) {
+        let detail = format!(
+            "{} | reqs=[{}] cfg write_buf={:?} half_closed={} fault={} schedule={}",
+            vd.detail,
+            case.reqs.iter().map(|r| format!("{}:{}", r.tag(), r.body_len)).collect::<Vec<_>>().join(","),
+            case.cfg.write_buf,
+            case.cfg.half_closed,
+            case.fault,
+            case.shape()
+        );
+        rep.violation(vd.class, &vd.sig, &detail, case.to_json());
+    }
+    if oc.read_pendings > 0 && oc.write_pendings + oc.flush_pendings > 0 {
+        rep.sig(&case.shape());
+    } else {
+        rep.count("schedules_without_both_side_pendings", 1);
+    }
+}
+
+// ------------------------------------------------------------------------------------ generator
+
+pub fn gen_case(rng: &mut Rng) -> Case {
+    let n = match rng.below(6) {
+        0 | 1 => 1,
+        2 | 3 => 2,
+        4 => 3,
+        _ => 4,
+    };
+    let mut cfg = ConnCfg::persistent();
+    cfg.half_closed = rng.chance(2, 3);
+    if rng.chance(1, 3) {
+        cfg.write_buf = Some(*rng.pick(&[1usize, 512, 4096, 100_000]));
+    }
+    let all_read_all = rng.chance(1, 2);
+    let mut reqs = vec![];
+    let mut progs = vec![];
+    for i in 0..n {
+        let has_body = rng.chance(3, 4);
+        let framing = if !has_body {
+            0
+        } else if rng.chance(1, 2) {
+            1
+        } else {
+            2
+        };
+        let body_len = if framing == 0 { 0 } else { *rng.pick(&[5usize, 300, 9000, 33_000, 70_000, 150_000, 300_000]) };
+        reqs.push(Req3 { method: if framing == 0 { *rng.pick(&["GET", "GET", "HEAD"]) } else { "POST" }, v10: false, conn: 0, framing, body_len, body_seed: rng.next() });
+        let read = if all_read_all {
+            ReadMode::All
+        } else {
+            match rng.below(8) {
+                0 => ReadMode::Ignore,
+                1 => ReadMode::Chunks(rng.range(1, 3)),
+                2 => ReadMode::Hold,
+                3 => ReadMode::AfterRespond,
+                4 => ReadMode::DropFirst,
+                _ => ReadMode::All,
+            }
+        };
+        let mut p = Prog { read, ..Default::default() };
+        if rng.chance(1, 3) {
+            p.pre_gate = Some(3 * i);
+        }
+        if rng.chance(1, 2) {
+            p.post_gate = Some(3 * i + 1);
+        }
+        if rng.chance(1, 3) {
+            p.read_gate = Some(3 * i + 2);
+        }
+        match rng.below(4) {
+            0 => {
+                p.kind = BodyKind::BodyStream;
+                p.steps = vec![BStep::Data(fill_data(*rng.pick(&[3usize, 5000, 40_000]), 1)), BStep::Wait(3 * i + 2), BStep::Data(fill_data(*rng.pick(&[1usize, 70_000]), 9))];
+            }
+            1 => {
+                let (a, b) = (*rng.pick(&[10usize, 33_000]), *rng.pick(&[7usize, 100_000]));
+                p.kind = BodyKind::SizedStream((a + b) as u64);
+                p.steps = vec![BStep::Data(fill_data(a, 3)), BStep::Wait(3 * i + 2), BStep::Data(fill_data(b, 4))];
+            }
+            2 => {
+                p.steps = vec![BStep::Data(fill_data(*rng.pick(&[2usize, 50_000, 200_000]), 7))];
+            }
+            _ => {}
+        }
+        progs.push(p);
+    }
+    let mut stream = vec![];
+    for (i, r) in reqs.iter().enumerate() {
+        stream.extend_from_slice(&r.bytes(i));
+    }
+    let cuts = rng.cuts(stream.len(), 10);
+    let segs = split_at_cuts(&stream, &cuts);
+    // event lists
+    let mut lists: Vec<Vec<Act>> = vec![segs.into_iter().map(Act::Push).collect()];
+    let mut gate_need: Vec<(usize, usize)> = vec![];
+    for (i, p) in progs.iter().enumerate() {
+        if p.pre_gate.is_some() {
+            gate_need.push((3 * i, 1));
+        }
+        if p.post_gate.is_some() {
+            gate_need.push((3 * i + 1, 1));
+        }
+        let waits = p.steps.iter().filter(|s| matches!(s, BStep::Wait(_))).count() + if p.read_gate.is_some() { rng.range(1, 12) } else { 0 };
+        if waits > 0 {
+            gate_need.push((3 * i + 2, waits));
+        }
+    }
+    for (g, k) in &gate_need {
+        lists.push((0..*k).map(|_| Act::Gate(*g, 1)).collect());
+    }
+    // write-side faults
+    let limited = rng.chance(2, 3);
+    let mut writes = vec![];
+    if limited {
+        for _ in 0..rng.range(1, 10) {
+            writes.push(match rng.below(8) {
+                0 => Act::SetCredit(0),
+                1 => Act::MaxWrite(*rng.pick(&[1usize, 3, 100, 4096])),
+                2 => Act::BlockFlush(true),
+                3 => Act::BlockFlush(false),
+                4 => Act::BlockShutdown(true),
+                _ => Act::Credit(*rng.pick(&[1usize, 2, 50, 1000, 9000, 40_000, 500_000])),
+            });
+        }
+        lists.push(writes);
+    }
+    let mut acts = vec![];
+    let mut pos = vec![0usize; lists.len()];
+    loop {
+        let avail: Vec<usize> = (0..lists.len()).filter(|&k| pos[k] < lists[k].len()).collect();
+        if avail.is_empty() {
+            break;
+        }
+        let k = *rng.pick(&avail);
+        acts.push(lists[k][pos[k]].clone());
+        pos[k] += 1;
+    }
+    // every prefix of a schedule is a schedule: cut it somewhere; what was not delivered moves to
+    // the settling phase
+    let cut_at = if rng.chance(1, 2) { acts.len() } else { rng.below(acts.len() + 1) };
+    let rest: Vec<Act> = acts.split_off(cut_at);
+    let mut fault = "none";
+    let mut tail_pushes: Vec<Act> = rest.iter().filter(|a| matches!(a, Act::Push(_))).cloned().collect();
+    match rng.below(12) {
+        0 => {
+            fault = "reset";
+            tail_pushes.clear();
+        }
+        1 => {
+            fault = "fail-writes";
+        }
+        2 if !tail_pushes.is_empty() => {
+            fault = "early-eof";
+            tail_pushes.truncate(rng.below(tail_pushes.len()));
+        }
+        _ => {}
+    }
+    // settling items, one at a time, in a random order (pushes keep their relative order and the
+    // end-of-input marker comes after them)
+    let mut items: Vec<Vec<Act>> = vec![];
+    items.push(vec![Act::MaxWrite(usize::MAX), Act::SetCredit(usize::MAX)]);
+    items.push(vec![Act::BlockFlush(false)]);
+    items.push(vec![Act::BlockShutdown(false)]);
+    for g in 0..(n * 3) {
+        items.push(vec![Act::Gate(g, 1_000_000)]);
+    }
+    items.push(vec![Act::ReleaseHeld]);
+    if fault == "fail-writes" {
+        items.push(vec![Act::FailWrites]);
+    }
+    let mut input = tail_pushes;
+    input.push(if fault == "reset" { Act::Reset } else { Act::Eof });
+    items.push(input);
+    // shuffle item order; inside the input item the order is kept but its elements are spread out
+    let mut settle = vec![];
+    let mut order: Vec<usize> = (0..items.len()).collect();
+    for i in (1..order.len()).rev() {
+        order.swap(i, rng.below(i + 1));
+    }
+    let mut cursors = vec![0usize; items.len()];
+    let mut live: Vec<usize> = order.clone();
+    while !live.is_empty() {
+        // mostly finish items in the shuffled order, sometimes interleave
+        let pick = if rng.chance(3, 4) { 0 } else { rng.below(live.len()) };
+        let it = live[pick];
+        settle.push(items[it][cursors[it]].clone());
+        cursors[it] += 1;
+        if cursors[it] == items[it].len() {
+            live.remove(pick);
+        }
+    }
+    let deterministic_output = all_read_all && fault == "none";
+    if deterministic_output {
+        // Byte identity with the always-ready run is only demanded when the peer half-closes
+        // after everything else is enabled: a FIN that overtakes buffered, not yet decoded
+        // requests (decoding paused by back-pressure) makes the server drop them, which changes
+        // the set of dispatched requests — outside this property's statement (noted in DESIGN.md).
+        settle.retain(|a| !matches!(a, Act::Eof));
+        settle.push(Act::Eof);
+    }
+    Case { cfg, reqs, progs, acts, settle, initial_credit: if limited { Some(*rng.pick(&[0usize, 0, 1, 100, 10_000])) } else { None }, deterministic_output, fault }
+}
+
+/// small scenarios whose schedules (and all their prefixes) are enumerated completely
+fn enumerated(ctx: &Ctx, rep: &mut Reporter) {
+    // one POST with a body larger than the payload back-pressure limit, a slow consumer, a
+    // streamed response, and a socket granting credit in pieces
+    let req = Req3 { method: "POST", v10: false, conn: 0, framing: 1, body_len: 70_000, body_seed: 5 };
+    let bytes = req.bytes(0);
+    let segs = split_at_cuts(&bytes, &[40, 20_000, 50_000]);
+    let prog = Prog {
+        read: ReadMode::All,
+        read_gate: Some(2),
+        kind: BodyKind::BodyStream,
+        steps: vec![BStep::Data(fill_data(40_000, 1)), BStep::Wait(1), BStep::Data(fill_data(10, 2))],
+        ..Default::default()
+    };
+    let alphabet: Vec<Act> = vec![Act::Gate(2, 1), Act::Gate(2, 3), Act::Gate(1, 1), Act::Credit(10_000), Act::Credit(60_000), Act::SetCredit(0)];
+    let depth = if ctx.thorough() { 5 } else { 4 };
+    let mut idx = 0u64;
+    let mut complete = true;
+    let mut stack: Vec<Vec<usize>> = vec![vec![]];
+    while let Some(seq) = stack.pop() {
+        if seq.len() < depth {
+            for a in 0..alphabet.len() + 1 {
+                let mut s = seq.clone();
+                s.push(a);
+                stack.push(s);
+            }
+        }
+        idx += 1;
+        if !ctx.mine(idx) {
+            continue;
+        }
+        if ctx.out_of_time() {
+            complete = false;
+            break;
+        }
+        // symbol `alphabet.len()` = "deliver the next input segment"
+        let mut acts = vec![];
+        let mut next_seg = 0;
+        for &a in &seq {
+            if a == alphabet.len() {
+                if next_seg < segs.len() {
+                    acts.push(Act::Push(segs[next_seg].clone()));
+                    next_seg += 1;
+                }
+            } else {
+                acts.push(alphabet[a].clone());
+            }
+        }
+        // settling: three fixed orders rotate with the index
+        let mut tail: Vec<Act> = segs[next_seg..].iter().cloned().map(Act::Push).collect();
+        tail.push(Act::Eof);
+        let open = vec![Act::Gate(0, 1_000_000), Act::Gate(1, 1_000_000), Act::Gate(2, 1_000_000)];
+        let credit = vec![Act::SetCredit(usize::MAX)];
+        let mut settle: Vec<Act> = match idx % 3 {
+            0 => [credit, open, tail].concat(),
+            1 => [tail, open, credit].concat(),
+            _ => [open, tail, credit].concat(),
+        };
+        settle.retain(|a| !matches!(a, Act::Eof));
+        settle.push(Act::Eof);
+        let case = Case { cfg: ConnCfg::persistent(), reqs: vec![req.clone()], progs: vec![prog.clone()], acts, settle, initial_credit: Some(0), deterministic_output: true, fault: "none" };
+        eval_case(&case, rep);
+    }
+    rep.exhaustive(&format!("all schedules up to length {depth} over 7 symbols (consumer permits, body gate, credit grants/withdrawal, next input segment) of the back-pressure scenario"), complete);
+}
+
+pub fn run(ctx: &Ctx, rep: &mut Reporter) {
+    if let Some(r) = &ctx.replay {
+        eval_case(&Case::from_json(r), rep);
+        rep.sig("replay-a");
+        rep.sig("replay-b");
+        return;
+    }
+    enumerated(ctx, rep);
+    let n = ctx.share(24_000, 1_200_000);
+    for k in 0..n {
+        if ctx.out_of_time() {
+            break;
+        }
+        let mut rng = Rng::derive(ctx.seed, 4, k * ctx.nshards + ctx.shard);
+        let case = gen_case(&mut rng);
+        eval_case(&case, rep);
+        if k == 2 {
+            rep.sample("random-schedule", json!({"reqs": case.reqs.iter().map(|r| format!("{}:{}", r.tag(), r.body_len)).collect::<Vec<_>>(), "schedule_shape": case.shape(), "fault": case.fault, "initial_credit": case.initial_credit, "write_buf": case.cfg.write_buf}));
+        }
+    }
 }
